@@ -64,7 +64,7 @@ def expected_report(c, version):
     stand for values judged separately"""
     pl = c05.expected_piece_length(c)
     tree = c["tree"]
-    files = c05.tree_paths(tree)
+    files = c05.tree_paths(tree, c.get("sort_by"))
     total = sum(f["size"] for f in files)
     name = c["name"] if c["name"] is not None else tree["name"]
     top = c05.expected_fields(c, version)
@@ -88,7 +88,7 @@ def expected_report(c, version):
 def expected_md5s(c):
     """the MD5 texts the loaded metainfo must carry, from the command line and the contents alone: the hex MD5 of each file's
     bytes in listed order when --md5 was given, no entry otherwise (one entry for a single file / stdin)"""
-    files = c05.tree_paths(c["tree"])
+    files = c05.tree_paths(c["tree"], c.get("sort_by"))
     return [hashlib.md5(c05.content_of(f["size"], f["word"])).hexdigest() if c["md5"] else None for f in files]
 
 
